@@ -7,7 +7,7 @@
     [sorts_to le r a] says: the run [r] returns [Ok b] (no panic, no hang) with [Permutation a b]
     and [Sorted le b].  [TotalPreorder cmp]: [cmp x y < 0 <-> 0 < cmp y x] and [cmp _ _ <= 0] is
     transitive (a Go comparator that is a total preorder; equal-comparing elements may differ). *)
-From Algo.C07 Require Import Model Spec ArrLemmas ProofsInsSel ProofsShell ProofsMerge ProofsHeap ProofsQuick ProofsQ3S ProofsMSDStr ProofsLSD ProofsMSDInt ProofsRef.
+From Algo.C07 Require Import Model Spec ArrLemmas ProofsInsSel ProofsShell ProofsMerge ProofsHeap ProofsQuick ProofsQ3S ProofsMSDStr ProofsLSD ProofsMSDInt ProofsRef ProofsStable PreFix.
 Open Scope Z_scope.
 
 Section ComparisonSorts.
@@ -50,6 +50,21 @@ Section ComparisonSorts.
     exists a' x, Select cmp rnd a k = Ok (a', x) /\ Permutation a a' /\ has_rank cmp a k x.
   Proof. exact (Select_correct T cmp TP). Qed.
 End ComparisonSorts.
+
+(** Beyond the property as stated (it allows any order among equal keys): Insertion, Merge and
+    MergeRec are stable - for every key [k], the elements equivalent to [k] keep their input order.
+    This is the tie order the correspondence compares as a fidelity observable. *)
+Theorem C07_stable_sorts : forall (T : Type) (cmp : T -> T -> Z), TotalPreorder cmp ->
+  forall (zero : T) (a b : list T) (k : T),
+    (Insertion cmp a = Ok b -> eqclass cmp k b = eqclass cmp k a) /\
+    (Merge cmp zero a = Ok b -> eqclass cmp k b = eqclass cmp k a) /\
+    (MergeRec cmp zero a = Ok b -> eqclass cmp k b = eqclass cmp k a).
+Proof.
+  intros T cmp TP zero a b k. split; [|split]; intros H.
+  - exact (Insertion_stable T cmp TP a b H k).
+  - exact (Merge_stable T cmp TP zero a b H k).
+  - exact (MergeRec_stable T cmp TP zero a b H k).
+Qed.
 
 (** Shuffle yields a permutation for every RNG oracle (no comparator involved). *)
 Theorem C07_Shuffle : forall (T : Type) (rnd : Z -> Z) (a : list T),
@@ -117,6 +132,31 @@ Proof.
   - apply MSDUint_correct, Ha.
 Qed.
 
+(** * The two defects repaired in /repo (fix: commits), on models of the code before the fix
+    (C07/PreFix.v): the statements above were false for that code; the witnesses are replayed
+    against the Go code on every run (corpus/C07). *)
+Theorem C07_LSDString_refuted_before_fix :
+  exists (a : list str) (w : Z),
+    0 <= w /\ Forall is_str a /\ Forall (fun s => len s = w) a /\ LSDString_old a w = Panic.
+Proof.
+  exists [[255]; [97]], 1. split; [lia|]. split; [|split].
+  - repeat constructor; unfold is_byte; lia.
+  - repeat constructor.
+  - vm_compute. reflexivity.
+Qed.
+
+Theorem C07_MSDUint_refuted_before_fix :
+  exists a : list Z, Forall uint64 a /\ ~ sorts_to Z.le (MSDUint_old a) a.
+Proof.
+  exists d07b_witness. split.
+  - apply Forall_forall. intros x Hx. unfold d07b_witness in Hx. apply in_map_iff in Hx.
+    destruct Hx as (i & <- & Hi). apply in_seq in Hi. unfold uint64.
+    assert (0 <= Z.of_nat i <= 16) as Hr by lia. revert Hr. generalize (Z.of_nat i). intros z Hz.
+    change (2 ^ 56) with 72057594037927936. change (2 ^ 48) with 281474976710656.
+    change (2 ^ 64) with 18446744073709551616. lia.
+  - intros H. apply sorts_to_Z in H. vm_compute in H. discriminate H.
+Qed.
+
 (** Non-vacuity: concrete runs (a comparator on pairs that ignores the second component). *)
 Example C07_example :
   let cmp := fun x y : Z * Z => fst x - fst y in
@@ -143,6 +183,7 @@ Print Assumptions C07_Quick.
 Print Assumptions C07_QuickCore.
 Print Assumptions C07_Quick3Way.
 Print Assumptions C07_Select.
+Print Assumptions C07_stable_sorts.
 Print Assumptions C07_Shuffle.
 Print Assumptions C07_LSDString.
 Print Assumptions C07_MSDString.
@@ -154,3 +195,5 @@ Print Assumptions C07_LSDUint.
 Print Assumptions C07_MSDInt.
 Print Assumptions C07_MSDUint.
 Print Assumptions C07_ints_native.
+Print Assumptions C07_LSDString_refuted_before_fix.
+Print Assumptions C07_MSDUint_refuted_before_fix.
